@@ -56,18 +56,29 @@ func IsError(t types.Type) bool {
 
 // Zero returns the zero value as a string, for a given type.
 func Zero(typ types.Type) string {
-	switch t := typ.(type) {
+	switch t := typ.Underlying().(type) {
 	case *types.Basic:
-		switch t.Kind() {
-		case types.String:
+		switch {
+		case t.Info()&types.IsString != 0:
 			return `""`
-		case types.Bool:
+		case t.Info()&types.IsBoolean != 0:
 			return "false"
-		default:
+		case t.Info()&types.IsNumeric != 0:
 			return "0"
 		}
 	}
 	return "nil"
+}
+
+// ZeroValue returns the zero value as a string, for a given type, also for struct and array
+// types, whose zero value is a composite literal and needs the type's name as the generated file
+// spells it.
+func ZeroValue(typ types.Type, typeString func(types.Type) string) string {
+	switch typ.Underlying().(type) {
+	case *types.Struct, *types.Array:
+		return typeString(typ) + "{}"
+	}
+	return Zero(typ)
 }
 
 func IsComparable(tt types.Type) bool {
